@@ -5,7 +5,7 @@ yet: the child has the state of a fresh interpreter), or per interpreter (mode "
 job: {"design": <design JSON>, "ops": [[kind, tops], ...]}
   ops: ["E", tops] h.elaborate(list) | ["P", [t]] h.to_proto(module t) | ["N", tops] h.elaborate(list); h.netlist(list, spice)
 result per call: {"ok": bool, "err": {...}|None, "pkg": package JSON (P calls that returned)}
-Under VERIF_C07E_LOG=1 the default passes are replaced by logging subclasses (public set_elaborator API) and every call
+With "log": true in the job the default passes are replaced by logging subclasses (public set_elaborator API) and every call
 also reports the (pass class, module index) bodies it ran - used by the failure-point stream of C08E.
 """
 import os, json, io as _io
